@@ -259,6 +259,30 @@ func AllUserActions() []*UserAction {
 				return fmt.Errorf("no pod to degrade")
 			},
 			After: func(mon MonState) { mon["req.degrade"] = "1" }},
+		{Name: "dropLastStep", OneShot: true, // plan edit while no release is in progress (the validator only freezes the step count while Progressing / Terminating)
+			Guard: func(w *World, sc *Scenario, mon MonState) bool {
+				ro := getRollout(w, sc)
+				return ro != nil && ro.Status.Phase == rolloutsv1beta1.RolloutPhaseHealthy && ro.DeletionTimestamp == nil && len(ro.Spec.Strategy.GetSteps()) > 1
+			},
+			Do: func(w *World, sc *Scenario) error {
+				return updateRolloutSpec(w, sc, func(ro *rolloutsv1beta1.Rollout) {
+					if ro.Spec.Strategy.BlueGreen != nil {
+						ro.Spec.Strategy.BlueGreen.Steps = ro.Spec.Strategy.BlueGreen.Steps[:len(ro.Spec.Strategy.BlueGreen.Steps)-1]
+					} else {
+						ro.Spec.Strategy.Canary.Steps = ro.Spec.Strategy.Canary.Steps[:len(ro.Spec.Strategy.Canary.Steps)-1]
+					}
+				})
+			},
+			After: func(mon MonState) { mon["req.editPlan"] = "1" }},
+		{Name: "deleteWorkload", OneShot: true,
+			Guard: func(w *World, sc *Scenario, mon MonState) bool {
+				return inProgress(getRollout(w, sc)) && getWorkload(w, sc) != nil
+			},
+			Do: func(w *World, sc *Scenario) error {
+				o := getWorkload(w, sc)
+				return w.Raw.Delete(context.TODO(), o.(client.Object))
+			},
+			After: func(mon MonState) { mon["req.exit"] = "workload-deleted" }},
 		jump(-1), jump(0), jump(1), jump(2), jump(3), jump(4), jump(2147483647),
 	}
 	return acts
